@@ -303,3 +303,170 @@ def kills_unconditionally(body):
             ):
                 return True, len(kills)
     return False, len(kills)
+
+
+# --------------------------------------------------------------------------------------------------------------------
+# (error kind, permissive flag) evaluation: under which combinations does control reach a node?
+# Three-valued: True / False / None (unknown).
+
+
+def _and3(a, b):
+    if a is False or b is False:
+        return False
+    if a is None or b is None:
+        return None
+    return True
+
+
+def _or3(a, b):
+    if a is True or b is True:
+        return True
+    if a is None or b is None:
+        return None
+    return False
+
+
+def _not3(a):
+    return None if a is None else (not a)
+
+
+class KindFlagEval:
+    """Evaluates conditions of one function body under an assignment (kind of the error being handled, value of the
+    permissive flag). Conditions it does not understand evaluate to None."""
+
+    def __init__(self, fx, root, all_kinds):
+        self.fx = fx
+        self.root = root
+        self.all_kinds = list(all_kinds)
+        self.mutated = T.mutated_locals(root)
+        self.lets = {}
+        for n, _ in F.walk(root):
+            if n.get("s") == "Let" and n["pat"].get("p") == "Bind" and "init" in n and "els" not in n:
+                self.lets.setdefault(n["pat"]["local"], n["init"])
+
+    def ev(self, c, k, p, depth=0):
+        if depth > 6 or not isinstance(c, dict):
+            return None
+        while c.get("k") in ("DropTemps", "Use", "Type") or (c.get("k") == "Block" and not c["block"]["stmts"] and "expr" in c["block"]):
+            c = c["e"] if c.get("k") != "Block" else c["block"]["expr"]
+        kk = c.get("k")
+        if kk == "Lit" and c["value"].get("lit") == "bool":
+            return bool(c["value"]["v"])
+        if kk == "Field" and c["field"] == PERMISSIVE and c.get("adt") == CONFIG:
+            return p
+        if kk == "MethodCall" and c["method"] == PERMISSIVE:
+            return p
+        if kk == "Unary" and c.get("op") == "Not":
+            return _not3(self.ev(c["e"], k, p, depth))
+        if kk == "Binary" and c["op"] == "And":
+            return _and3(self.ev(c["l"], k, p, depth), self.ev(c["r"], k, p, depth))
+        if kk == "Binary" and c["op"] == "Or":
+            return _or3(self.ev(c["l"], k, p, depth), self.ev(c["r"], k, p, depth))
+        if kk == "Binary" and c["op"] in ("Eq", "Ne"):
+            l, r = self.ev(c["l"], k, p, depth), self.ev(c["r"], k, p, depth)
+            if l is None or r is None:
+                return None
+            return (l == r) if c["op"] == "Eq" else (l != r)
+        if kk == "Match":
+            sel = self.select_arm(c, k, p, depth)
+            if sel is None:
+                return None
+            return self.ev(sel["body"], k, p, depth + 1)
+        if kk == "If":
+            cv = self.ev(c["cond"], k, p, depth)
+            if cv is None:
+                return None
+            br = c["then"] if cv else c.get("else")
+            return self.ev(br, k, p, depth + 1) if br is not None else None
+        if kk == "Path" and c.get("res") == "local":
+            lid = c.get("local")
+            if lid in self.lets and lid not in self.mutated:
+                return self.ev(self.lets[lid], k, p, depth + 1)
+            return None
+        if kk in ("MethodCall", "Call"):
+            d = F.callee_def(c)
+            b = self.fx.body(d) if d else None
+            if b is not None and b.get("hir") and (self.fx.fns.get(d, {}).get("output") or "").strip() == "bool" and depth < 3:
+                sub = KindFlagEval(self.fx, b["hir"]["value"], self.all_kinds)
+                return sub.ev(b["hir"]["value"], k, p, depth + 2)
+        return None
+
+    def is_kind_match(self, m):
+        return any((F.pat_variants(a["pat"]) or set()) and all(x == EXEC_ERR for x, _ in F.pat_variants(a["pat"])) for a in m["arms"])
+
+    def select_arm(self, m, k, p, depth=0):
+        """The arm a match over the error kind selects for (k, p), or None if unknown / not a kind match."""
+        if not self.is_kind_match(m) or k is None:
+            return None
+        for a in m["arms"]:
+            pv = F.pat_variants(a["pat"])
+            if pv:
+                if not all(x == EXEC_ERR for x, _ in pv):
+                    return None
+                hit = k in {v for _, v in pv}
+            else:
+                hit = True
+            if not hit:
+                continue
+            if "guard" in a:
+                g = self.ev(a["guard"], k, p, depth + 1)
+                if g is None:
+                    return None
+                if not g:
+                    continue
+            return a
+        return None
+
+    def _try_inner_match(self, e):
+        """`(match kind { A | B => Ok(x), _ => Err(x) })?` -> the inner match, else None."""
+        while e.get("k") in ("DropTemps", "Use"):
+            e = e["e"]
+        if e.get("k") == "Match" and "TryDesugar" in str(e.get("source", "")):
+            sc = e["scrut"]
+            inner = sc["args"][0] if sc.get("k") == "Call" and sc.get("args") else None
+            while inner is not None and inner.get("k") in ("DropTemps", "Use"):
+                inner = inner["e"]
+            if inner is not None and inner.get("k") == "Match" and self.is_kind_match(inner):
+                return inner
+        return None
+
+    def reach(self, ps, node, k, p):
+        """Does control reach `node` (with ancestor chain ps) when the handled error has kind k and the flag is p?"""
+        val = True
+        tk = T._span_key(node.get("span"))
+        for i, (anc, key) in enumerate(ps):
+            if not isinstance(anc, dict):
+                continue
+            if anc.get("k") == "If" and key in ("then", "else") and not anc.get("exp"):
+                cv = self.ev(anc["cond"], k, p)
+                val = _and3(val, cv if key == "then" else _not3(cv))
+            if "pat" in anc and "body" in anc and key == "body" and i > 0 and ps[i - 1][0].get("k") == "Match":
+                m = ps[i - 1][0]
+                if self.is_kind_match(m):
+                    sel = self.select_arm(m, k, p)
+                    val = _and3(val, None if sel is None else (sel is anc))
+            if "stmts" in anc and "k" not in anc:
+                for st in anc["stmts"]:
+                    sk = T._span_key(st.get("span") or (st.get("e") or {}).get("span"))
+                    if not (tk and sk and sk[0] == tk[0] and sk[2] <= tk[1]):
+                        continue
+                    e = st.get("e") if st.get("s") == "Expr" else st.get("init") if st.get("s") == "Let" else None
+                    if e is None:
+                        continue
+                    x = e
+                    while x.get("k") in ("DropTemps", "Use"):
+                        x = x["e"]
+                    # earlier `if c { return / break / continue }`
+                    if x.get("k") == "If" and "else" not in x and T.diverges(x["then"]):
+                        val = _and3(val, _not3(self.ev(x["cond"], k, p)))
+                    # earlier `(match kind {..=> Ok(..), ..=> Err(..)})?`
+                    inner = self._try_inner_match(x)
+                    if inner is not None:
+                        sel = self.select_arm(inner, k, p)
+                        if sel is None:
+                            val = _and3(val, None)
+                        else:
+                            body = F.strip(sel["body"])
+                            is_ok = body.get("k") == "Call" and (F.path_def(body["f"]) or "").endswith("Ok")
+                            val = _and3(val, is_ok)
+        return val
